@@ -14,6 +14,11 @@ TagOrder == <<"AXIS_PTS", "BLOB", "CHARACTERISTIC", "COMPU_METHOD", "COMPU_TAB",
               "COMPU_VTAB_RANGE", "FRAME", "FUNCTION", "GROUP", "INSTANCE", "MEASUREMENT",
               "RECORD_LAYOUT", "TRANSFORMER", "TYPEDEF_AXIS", "TYPEDEF_BLOB", "TYPEDEF_CHARACTERISTIC",
               "TYPEDEF_MEASUREMENT", "TYPEDEF_STRUCTURE", "UNIT">>
+\* the order in which sort.rs hands out uids
+TraceSortKindOrder == <<"CHARACTERISTIC", "MEASUREMENT", "AXIS_PTS", "INSTANCE", "BLOB", "COMPU_METHOD", "COMPU_TAB",
+                        "COMPU_VTAB", "COMPU_VTAB_RANGE", "TYPEDEF_STRUCTURE", "TYPEDEF_CHARACTERISTIC",
+                        "TYPEDEF_MEASUREMENT", "TYPEDEF_AXIS", "TYPEDEF_BLOB", "FRAME", "FUNCTION", "GROUP",
+                        "RECORD_LAYOUT", "TRANSFORMER", "UNIT">>
 TraceKinds == Range(TagOrder)
 TraceKindRank == [k \in TraceKinds |-> PosIn(TagOrder, k)]
 
@@ -90,6 +95,11 @@ TSort == /\ l <= Len(Rec) /\ Ev.ev = "sort_new_items"
             ELSE panic' = FALSE /\ Obs(E', lists', Ev)
          /\ l' = l + 1
 
+TSortFull == /\ l <= Len(Rec) /\ Ev.ev = "sort"
+             /\ SortFull(4 + Ev.nifdata)
+             /\ Obs(E', lists', Ev)
+             /\ l' = l + 1
+
 TWrite == /\ l <= Len(Rec) /\ Ev.ev = "write"
           /\ Obs(E, lists, Ev)
           /\ UNCHANGED vars
@@ -97,7 +107,7 @@ TWrite == /\ l <= Len(Rec) /\ Ev.ev = "write"
 
 TraceInit == /\ E = <<>> /\ lists = [k \in TraceKinds |-> <<>>] /\ panic = FALSE /\ last = [op |-> "init"] /\ l = 1
 \* a load event also restarts after a panic (new trace)
-TraceNext == TLoad \/ TPush \/ TMerge \/ TSort \/ TWrite
+TraceNext == TLoad \/ TPush \/ TMerge \/ TSort \/ TSortFull \/ TWrite
 TraceSpec == TraceInit /\ [][TraceNext]_tvars
 
 TraceAccepted ==
